@@ -91,6 +91,17 @@ theorem C12_alias_counterexample_rebound_cache (cfg : Cfg) (d : Bool) :
   obtain ⟨a, p, i, m⟩ := cfg
   cases a <;> cases p <;> cases i <;> cases m <;> cases d <;> decide +kernel
 
+open Witness in
+/-- the kept finding `memo-of-registry-copy-survives-edit`, for EVERY configuration, in-place or not: the
+    `unit_system_id` memo is per registry object, an edit resets only the memo of the object it goes through —
+    `r.unit_system_id; cp = copy.copy(r); r.add("foo", …)`: `cp.unit_system_id` is the id of the table without
+    `foo` (why `AliasFullExceptId` excludes the id) -/
+theorem C12_alias_counterexample_copy_memo (acfg : ACfg) (cfg : Cfg) :
+    simB (agot acfg cfg hAliasMemo 1 .sysId) (want cfg (eraseH hAliasMemo) .sysId) = false := by
+  obtain ⟨d, c⟩ := acfg
+  obtain ⟨a, p, i, m⟩ := cfg
+  cases d <;> cases c <;> cases a <;> cases p <;> cases i <;> cases m <;> decide +kernel
+
 /-- a machine that rebinds either container fails the property, whatever its edits invalidate -/
 theorem not_alias_full_of_rebinding (acfg : ACfg) (cfg : Cfg) (h : acfg ≠ ACfg.shared) :
     ¬ AliasFullExceptId acfg cfg := by
